@@ -151,9 +151,24 @@ def dist_id(dd):
 
 
 def ticks(x):
+    """seconds -> integer ticks; a value off the 1/64 s lattice is kept as a float (it can then equal no model value)"""
     v = float(x) * 64
-    if v != round(v): raise ValueError(f"off-lattice time {x!r}")
-    return int(round(v))
+    return int(round(v)) if v == round(v) else v
+
+
+class ImplTimeout(BaseException):
+    pass
+
+
+def with_timeout(sec, f):
+    """run f() in the main thread with a wall-clock limit (an implementation that does not return must not hang the check)"""
+    import signal
+    def h(sig, frm): raise ImplTimeout()
+    old = signal.signal(signal.SIGALRM, h); signal.setitimer(signal.ITIMER_REAL, sec)
+    try:
+        return f()
+    finally:
+        signal.setitimer(signal.ITIMER_REAL, 0); signal.signal(signal.SIGALRM, old)
 
 
 # ---------------------------------------------------------------- case generation
@@ -420,13 +435,13 @@ def law_roundtrip(chk, case, impl, extra):
                           f"{aex[n]['info']} vs {bex[n]['info']}", cr); return
         if [o[:2] for o in bex[n]["outputs"]] != [o[:2] for o in aex[n]["outputs"]] or not aex[n]["keys_match"]:
             chk.violation("roundtrip-differs:outputs", f"info round trip changes the outgoing connections of node {n}: "
-                          f"{aex[n]['outputs']} vs {bex[n]['outputs']}", cr); return
+                          f"{aex[n]['outputs']} vs {bex[n]['outputs']} (inputs keyed by their input_name: {aex[n]['keys_match']})", cr); return
 
 
 # ---------------------------------------------------------------- episodes (child process)
 def episode_child():
     """stdin: json list of cases; stdout: json list of per-case results (recorded delays in ticks)"""
-    import faulthandler, numpy as onp
+    import faulthandler, time, numpy as onp
     cases = json.load(sys.stdin)
     from rex import constants as const
     from rex.asynchronous import AsyncGraph
@@ -435,20 +450,26 @@ def episode_child():
         case = (case[0], [tuple(o) for o in case[1]])
         N = impl_build(case)
         before, _ = impl_obs(N)
-        steps = 6
+        steps = 8
         faulthandler.dump_traceback_later(90, exit=True)
         g = AsyncGraph(N, N["n0"], clock=const.Clock.SIMULATED, real_time_factor=const.RealTimeFactor.FAST_AS_POSSIBLE)
         g.set_record_settings(params=False, rng=False, inputs=False, state=False, output=False)
         gs = g.init(); g.warmup(gs, jit_step=False)
         gs, ss = g.reset(gs)
         for _ in range(steps): gs, ss = g.step(gs)
+        time.sleep(0.3)          # let the other nodes' threads catch up with the supervisor before stopping
         g.stop()
-        r = g.get_record()
+        try:
+            r = g.get_record()
+        except TypeError:        # rex cannot assemble the record of a connection without any message (not C16's concern)
+            faulthandler.cancel_dump_traceback_later()
+            out.append(dict(skipped="rex could not assemble the record: a connection without messages")); continue
         faulthandler.cancel_dump_traceback_later()
         res = dict(obs=before, nodes={}, conns={}, rec_info={})
         for n, nr in r.nodes.items():
             st = nr.steps
-            res["nodes"][str(nid(n))] = [ticks(e) - ticks(s) for s, e in zip(st.ts_start, st.ts_end)]
+            ds = [ticks(e) - ticks(s) for s, e in zip(st.ts_start, st.ts_end)]
+            res["nodes"][str(nid(n))] = [int(round(d)) if abs(d - round(d)) < 1e-6 else d for d in ds]
             info, _ = canon_info(nr.info)
             res["rec_info"][str(nid(n))] = info
             for m, ir in nr.inputs.items():
@@ -480,8 +501,9 @@ def run_episodes(chk, cases, models):
         rc, o, e, dt = lib.sh([lib.PY, os.path.abspath(__file__), "--episodes"], inp=json.dumps(cases), env=env, timeout=600)
         if rc == 0:
             res = json.loads(o[o.index("[{"):] if "[{" in o else o); break
-        chk.feat("episode-child-retry")
         last = (rc, (o + e)[-1500:])
+        if not (rc == 124 or "Thread 0x" in e or "Timeout" in e): break      # retry only when the child hung
+        chk.feat("episode-child-retry")
     if res is None:
         if "Timeout" in last[1] or last[0] == 124 or "dump_traceback" in last[1] or "Thread 0x" in last[1]:
             chk.notes.append("simulated episodes skipped in this run: the AsyncGraph child process hung three times "
@@ -489,12 +511,16 @@ def run_episodes(chk, cases, models):
         chk.broke("episode-child-failed", last[1]); return
     for case, model, r in zip(cases, models, res):
         case = (case[0], [tuple(o) for o in case[1]])
+        if "skipped" in r: chk.feat("episode:skipped-empty-message-record"); continue
         chk.traces_impl += 1
         v = judge(chk, case, dict(before=r["obs"], after=None), [dict(before=m["before"], after=None) for m in model], tag="cfg")
         ok = model[0]["before"]
         cr = dict(repr=repr(case), ops=len(case[1]), episode=True)
         f = ["episode"] + feats(case)
-        chk.case(("episode", repr(case)), f, dict(kind="episode", case=repr(case)[:400], step_delays=r["nodes"]))
+        chk.case(("episode", repr(case)), f, None)
+        if not any(x.get("kind") == "episode" for x in chk.samples if isinstance(x, dict)):
+            chk.samples.insert(0, dict(kind="episode", case=repr(case)[:400], recorded_step_delays=r["nodes"],
+                                       recorded_messages={k: dict(sent=m["sent"][:6], recv=m["recv"][:6]) for k, m in r["conns"].items()}))
         # recorded infos are the infos of the configuration
         for n, inf in r["rec_info"].items():
             want = (model[VARIANTS.index(v)] if v else model[0])["before"][n]["info"]
@@ -558,8 +584,18 @@ def run(chk, replay=None):
         eps_cases = [gen_case(r, kmax, episode=True) for _ in range(n_eps)]
     terms = [coq_case(c) for c in cfg_cases + eps_cases]
     model = [canon_model(m) for m in lib.coq_eval_sharded("C16", HEADER, "run", terms, per=100)] if terms else []
+    timeouts = 0
     for case, mo in zip(cfg_cases, model):
-        impl, extra = impl_run(case)
+        if timeouts >= 3: break
+        try:
+            impl, extra = with_timeout(20, lambda: impl_run(case))
+        except ImplTimeout:
+            timeouts += 1
+            chk.violation("cfg-differs:does-not-return", "building the configuration / reading phase and info / the info round trip "
+                          "did not return within 20 s", dict(repr=repr(case), ops=len(case[1]))); continue
+        except Exception as e:  # noqa: any exception other than the algebraic-loop report is a difference from the model
+            chk.violation(f"cfg-differs:raises:{type(e).__name__}", f"rex raised {type(e).__name__}: {str(e)[:200]} on a configuration "
+                          "the model accepts", dict(repr=repr(case), ops=len(case[1]))); continue
         chk.traces_impl += 1
         f = feats(case)
         if any(v["phase"] == "LOOP" for v in mo[0]["before"].values()): f.append("algebraic-loop")
@@ -575,7 +611,7 @@ def run(chk, replay=None):
     # minimal failing inputs first: keep, per signature, the violation with the fewest operations
     best = {}
     for v in chk.violations:
-        k = v["signature"]
+        k = (v["signature"], v["what"].split(" ignore")[0] if v["signature"] == SIG_F3 else "")
         if k not in best or v["case"].get("ops", 99) < best[k]["case"].get("ops", 99): best[k] = v
     chk.violations = list(best.values())
     chk.extra["source_variant"] = dict(zip(("BaseNode.set_delay ignores delay_dist", "Connection.set_delay ignores delay_dist",
@@ -587,7 +623,7 @@ def run(chk, replay=None):
         "of every node or the algebraic-loop error, all connection attributes, and the same after from_info + "
         "connect_from_info; non-trivial = exercises a shadow name, a skipped connection, a set_delay, a reconnect, a "
         "defaulted delay, a distrax-wrapped distribution or a loop; distinct by (nodes, ops). episode cases: 2-3 node "
-        "acyclic graphs, at least one set_delay, one 6-step simulated-clock AsyncGraph episode in a child process, recorded "
+        "acyclic graphs, at least one set_delay, one 8-step simulated-clock AsyncGraph episode in a child process, recorded "
         "computation / communication delays compared with the configured table stream" % kmax)
     chk.trusted += ["harness-side TableDist (cyclic table of delays) and Probe node classes; registry of distributions identified by content"]
     chk.notes += ["times are multiples of 1/64 s, so floats are exact and compared exactly as integer ticks",
